@@ -550,6 +550,16 @@ def _copyable(v, stable, stored_attrs, line=None):
         if last is not None and (last == "loop" or ln is None or last > ln):
             return False
         return _copyable(v.value, stable, stored_attrs, ln)
+    # pure scalar arithmetic over copyable operands
+    if isinstance(v, ast.BinOp) and isinstance(v.op, (ast.Add, ast.Sub, ast.Mult, ast.FloorDiv, ast.Mod, ast.LShift, ast.RShift, ast.BitAnd, ast.BitOr)):
+        return _copyable(v.left, stable, stored_attrs, line) and _copyable(v.right, stable, stored_attrs, line)
+    if isinstance(v, ast.UnaryOp) and isinstance(v.op, (ast.USub, ast.UAdd, ast.Not)):
+        return _copyable(v.operand, stable, stored_attrs, line)
+    if isinstance(v, ast.Call) and not v.keywords and len(v.args) == 1 and not isinstance(v.args[0], ast.Starred):
+        f = v.func
+        name = f.id if isinstance(f, ast.Name) else f.attr if isinstance(f, ast.Attribute) and isinstance(f.value, ast.Name) and f.value.id in ("np", "numpy") else None
+        if name in ("int", "float", "bool", "len", "uint8", "uint16", "uint32", "uint64", "int8", "int16", "int32", "int64", "float32", "float64"):
+            return _copyable(v.args[0], stable, stored_attrs, line)
     return False
 
 
@@ -642,6 +652,58 @@ def _propagate_copies(fn):
     return count[0]
 
 
+def _inline_adjacent_single_use(stmts, uses):
+    """`t = <expr>` immediately followed by the only statement that reads t (once, and not inside a loop/branch body of it):
+    the expression replaces the read.  Evaluation order is unchanged because nothing runs in between."""
+    out = []
+    i = 0
+    changed = 0
+    while i < len(stmts):
+        s = stmts[i]
+        nxt = stmts[i + 1] if i + 1 < len(stmts) else None
+        if (isinstance(s, ast.Assign) and len(s.targets) == 1 and isinstance(s.targets[0], ast.Name) and nxt is not None
+                and uses.get(s.targets[0].id) == (1, 1) and isinstance(nxt, (ast.Assign, ast.Expr, ast.Return, ast.AugAssign, ast.AnnAssign))):
+            name = s.targets[0].id
+            loads = [n for n in ast.walk(nxt) if isinstance(n, ast.Name) and n.id == name and isinstance(n.ctx, ast.Load)]
+            inside_lambda = any(isinstance(n, (ast.Lambda, ast.ListComp, ast.SetComp, ast.DictComp, ast.GeneratorExp)) for n in ast.walk(nxt))
+            if len(loads) == 1 and not inside_lambda:
+                class R(ast.NodeTransformer):
+                    def visit_Name(self, n):
+                        if n is loads[0]:
+                            return copy.deepcopy(s.value)
+                        return n
+                stmts[i + 1] = R().visit(nxt)
+                changed += 1
+                i += 1
+                continue
+        for fld in ("body", "orelse", "finalbody"):
+            if hasattr(s, fld) and isinstance(getattr(s, fld), list) and not isinstance(s, (ast.FunctionDef, ast.ClassDef)):
+                nb, c = _inline_adjacent_single_use(getattr(s, fld), uses)
+                setattr(s, fld, nb)
+                changed += c
+        if isinstance(s, ast.Try):
+            for h in s.handlers:
+                h.body, c = _inline_adjacent_single_use(h.body, uses)
+                changed += c
+        out.append(s)
+        i += 1
+    return out, changed
+
+
+def _name_uses(fn):
+    """name -> (number of stores, number of loads) over the whole function (nested scopes included, conservatively)."""
+    st, ld = {}, {}
+    for n in ast.walk(fn):
+        if isinstance(n, ast.Name):
+            if isinstance(n.ctx, ast.Load):
+                ld[n.id] = ld.get(n.id, 0) + 1
+            else:
+                st[n.id] = st.get(n.id, 0) + 1
+    for a in fn.args.args + fn.args.kwonlyargs:
+        st[a.arg] = st.get(a.arg, 0) + 1
+    return {k: (st.get(k, 0), ld.get(k, 0)) for k in set(st) | set(ld)}
+
+
 def normalize(tree):
     inl = Inliner(tree)
     n = inl.run()
@@ -654,6 +716,10 @@ def normalize(tree):
                 node.body = _eliminate_early_returns(node.body)
             for _ in range(3):
                 if not _propagate_copies(node):
+                    break
+            for _ in range(3):
+                node.body, c = _inline_adjacent_single_use(node.body, _name_uses(node))
+                if not c:
                     break
     # a private helper whose every use was inlined is dead for the analysis: its body is judged where it now runs
     dropped = set()
